@@ -31,6 +31,10 @@ type BootCase struct {
 	HasEnv  bool   `json:"has_env"`
 	HasFile bool   `json:"has_file"`
 	HasFlag bool   `json:"has_flag"`
+	// a source may restate the built-in default (filled in at execution)
+	EnvIsDefault  bool `json:"env_is_default,omitempty"`
+	FileIsDefault bool `json:"file_is_default,omitempty"`
+	FlagIsDefault bool `json:"flag_is_default,omitempty"`
 }
 
 // BootPlan is one simulated boot.
@@ -297,6 +301,20 @@ func execBoot(t *testing.T, prop string, planJSON []byte, ch *simrt.Choices, tra
 		out.Violations = append(out.Violations, Violation{Prop: prop, Class: "harness-panic", Key: "harness", Msg: msg})
 		return out
 	}
+	for i := range p.Cases {
+		c := &p.Cases[i]
+		if d, ok := bootDefaults[c.Key]; ok {
+			if c.EnvIsDefault && d != "" {
+				c.Env = d
+			}
+			if c.FileIsDefault {
+				c.File = d
+			}
+			if c.FlagIsDefault {
+				c.Flag = d
+			}
+		}
+	}
 	var obs *bootObs
 	if pv := bubble(t, func() { obs = runBoot(&p, ch, bootKeys) }); pv != nil {
 		out.Violations = append(out.Violations, Violation{Prop: prop, Class: "harness-panic", Key: "harness", Msg: fmt.Sprint(pv)})
@@ -461,6 +479,16 @@ func genBootPlan(seed int64, keys []optKey) *BootPlan {
 		c := BootCase{Key: k.Yaml, HasEnv: mask&1 != 0, HasFile: mask&2 != 0, HasFlag: mask&4 != 0}
 		vals := distinctValues(r, k, usedPorts)
 		c.Env, c.File, c.Flag = vals[0], vals[1], vals[2]
+		switch r.Intn(8) {
+		case 0:
+			c.FileIsDefault = true
+		case 1:
+			c.EnvIsDefault = true
+		case 2:
+			c.FlagIsDefault = true
+		case 3:
+			c.FileIsDefault, c.FlagIsDefault = true, true
+		}
 		p.Cases = append(p.Cases, c)
 	}
 	return p
